@@ -2,8 +2,8 @@
 package c02
 
 import (
-	"math/big"
 	"fmt"
+	"math/big"
 	"reflect"
 	"sort"
 	"testing"
@@ -191,8 +191,12 @@ func txField(name string, mutate func(t *rapid.T, b *gen.Block) (core.Transactio
 	}
 }
 
-func v(n uint64) func(x interface{ TxVersion() *core.TransactionVersion }) bool {
-	return func(x interface{ TxVersion() *core.TransactionVersion }) bool { return x.TxVersion().Is(n) }
+func v(n uint64) func(x interface {
+	TxVersion() *core.TransactionVersion
+}) bool {
+	return func(x interface {
+		TxVersion() *core.TransactionVersion
+	}) bool { return x.TxVersion().Is(n) }
 }
 
 func rbTamper(t *rapid.T, rb map[core.Resource]core.ResourceBounds) {
@@ -419,7 +423,9 @@ func tamperTable() []tamper {
 	}
 	for _, ver := range []uint64{1, 3} {
 		da(ver, "class-hash", func(t *rapid.T, x *core.DeployAccountTransaction) { x.ClassHash = bump(x.ClassHash) })
-		da(ver, "salt", func(t *rapid.T, x *core.DeployAccountTransaction) { x.ContractAddressSalt = bump(x.ContractAddressSalt) })
+		da(ver, "salt", func(t *rapid.T, x *core.DeployAccountTransaction) {
+			x.ContractAddressSalt = bump(x.ContractAddressSalt)
+		})
 		da(ver, "constructor-calldata", func(t *rapid.T, x *core.DeployAccountTransaction) {
 			x.ConstructorCallData = bumpAt(x.ConstructorCallData, t)
 		})
@@ -598,7 +604,10 @@ func tamperTable() []tamper {
 			return ""
 		}})
 	}
-	rc("tx-hash", func(t *rapid.T, r *core.TransactionReceipt) bool { r.TransactionHash = bump(r.TransactionHash); return true })
+	rc("tx-hash", func(t *rapid.T, r *core.TransactionReceipt) bool {
+		r.TransactionHash = bump(r.TransactionHash)
+		return true
+	})
 	rc("actual-fee", func(t *rapid.T, r *core.TransactionReceipt) bool { r.Fee = bump(r.Fee); return true })
 	rc("reverted-flag", func(t *rapid.T, r *core.TransactionReceipt) bool { r.Reverted = !r.Reverted; return true })
 	rc("revert-reason", func(t *rapid.T, r *core.TransactionReceipt) bool {
@@ -608,7 +617,10 @@ func tamperTable() []tamper {
 		r.RevertReason += "!"
 		return true
 	})
-	rc("l1-gas", func(t *rapid.T, r *core.TransactionReceipt) bool { r.ExecutionResources.TotalGasConsumed.L1Gas++; return true })
+	rc("l1-gas", func(t *rapid.T, r *core.TransactionReceipt) bool {
+		r.ExecutionResources.TotalGasConsumed.L1Gas++
+		return true
+	})
 	rc("l1-data-gas", func(t *rapid.T, r *core.TransactionReceipt) bool {
 		r.ExecutionResources.TotalGasConsumed.L1DataGas++
 		return true
@@ -955,26 +967,30 @@ func TestPropTamperedBlocksRejected(t *testing.T) {
 				c.Label("first07:inside-chain,p-at-or-above")
 			}
 			// choose a tamper applicable to block p (construction, not rejection: walk the table from a drawn start)
-			var bad *gen.Block
-			var tm tamper
-			desc := ""
-			for try := 0; try < 12 && desc == ""; try++ {
-				tm = table[gen.Uniform(rt, len(table), "tamper")]
-				bad = gen.CloneBlock(ch.Blocks[p])
-				desc = tm.apply(rt, bad, u)
+			drawTamper := func() (*gen.Block, tamper, string) {
+				var bad *gen.Block
+				var tm tamper
+				desc := ""
+				for try := 0; try < 12 && desc == ""; try++ {
+					tm = table[gen.Uniform(rt, len(table), "tamper")]
+					bad = gen.CloneBlock(ch.Blocks[p])
+					desc = tm.apply(rt, bad, u)
+				}
+				start := gen.Uniform(rt, len(table), "tamperStart")
+				for k := 0; k < len(table) && desc == ""; k++ {
+					tm = table[(start+k)%len(table)]
+					bad = gen.CloneBlock(ch.Blocks[p])
+					desc = tm.apply(rt, bad, u)
+				}
+				if desc == "" {
+					stats.HarnessError("no tamper applicable")
+				}
+				if tm.reseal == "block" {
+					gen.Rehash(bad, u.Net)
+				}
+				return bad, tm, desc
 			}
-			start := gen.Uniform(rt, len(table), "tamperStart")
-			for k := 0; k < len(table) && desc == ""; k++ {
-				tm = table[(start+k)%len(table)]
-				bad = gen.CloneBlock(ch.Blocks[p])
-				desc = tm.apply(rt, bad, u)
-			}
-			if desc == "" {
-				stats.HarnessError("no tamper applicable")
-			}
-			if tm.reseal == "block" {
-				gen.Rehash(bad, u.Net)
-			}
+			bad, tm, desc := drawTamper()
 			c.Fp("%s p%d/%d %s net %s/%s f7=%d ur=%v", tm.name, p, n, ch.Blocks[p].B.Hash.String(), u.Net.Name, u.Net.L2ChainID, meta.First07Block, meta.UnverifiableRange)
 			c.Label("tamper:" + tm.name)
 			c.NonTrivial("committed-field-changed")
@@ -989,21 +1005,75 @@ func TestPropTamperedBlocksRejected(t *testing.T) {
 					c.Violation("valid-block-rejected", "%s rejected valid block %d: %v", nd.Backend(), b.Num(), err)
 				}
 			}
-			before := node.Dump(nd.DB)
-			evBefore := node.Obs{}
-			nd.ObserveEvents(evBefore, ids)
-			err := nd.Store(bad)
-			if err == nil {
-				c.Violation("tampered-block-accepted", "%s backend ACCEPTED block %d (v%s) tampered by [%s]: %s", nd.Backend(), p, ch.Blocks[p].B.ProtocolVersion, tm.name, desc)
+			// What the node has seen of the GENUINE block p (and its successors) before the tampered copy arrives, on the same
+			// long-lived Blockchain object: nothing (a fresh view), verified ahead of the head as the sync pipeline does
+			// (SanityCheckNewHeight without Store, possibly of several later heights too), or stored and reverted again (a reorg
+			// back to height p-1). A tampered copy that keeps the genuine hash must be rejected whatever was verified before.
+			history := rapid.SampledFrom([]string{"fresh", "fresh", "verified-ahead", "verified-ahead", "stored-and-reverted", "stored-and-reverted", "verified-ahead-then-stored-and-reverted"}).Draw(rt, "history")
+			c.Label("history:" + history)
+			c.Fp("history %s", history)
+			verifyAhead := func() {
+				k := rapid.IntRange(p, n-1).Draw(rt, "verifyUpTo")
+				for _, b := range ch.Blocks[p : k+1] {
+					// blocks above p do not extend the head yet: only the hash-level verification is exercised, its outcome for
+					// them is not part of the oracle
+					if _, err := nd.BC.SanityCheckNewHeight(b.B, b.SU, b.Classes); err != nil && b.Num() == uint64(p) {
+						c.Violation("valid-block-rejected", "%s: SanityCheckNewHeight rejected valid block %d: %v", nd.Backend(), b.Num(), err)
+					}
+				}
 			}
-			after := node.Dump(nd.DB)
-			if why, ok := dumpEqual(before, after); !ok {
-				c.Violation("rejected-block-left-trace", "%s: database changed by the rejected block (%s): %s; rejection was: %v", nd.Backend(), tm.name, why, err)
+			storeAndRevert := func() {
+				k := rapid.IntRange(p, n-1).Draw(rt, "storeUpTo")
+				for _, b := range ch.Blocks[p : k+1] {
+					if err := nd.Store(b); err != nil {
+						c.Violation("valid-block-rejected", "%s rejected valid block %d: %v", nd.Backend(), b.Num(), err)
+					}
+				}
+				for i := k; i >= p; i-- {
+					if err := nd.BC.RevertHead(); err != nil {
+						c.Violation("revert-failed", "%s: RevertHead of block %d: %v", nd.Backend(), i, err)
+					}
+				}
 			}
-			evAfter := node.Obs{}
-			nd.ObserveEvents(evAfter, ids)
-			if d := node.Diff(evBefore, evAfter, 3); len(d) > 0 {
-				c.Violation("rejected-block-changed-event-answers", "%s: event query answers changed by the rejected block (%s): %v", nd.Backend(), tm.name, d)
+			switch history {
+			case "verified-ahead":
+				verifyAhead()
+			case "stored-and-reverted":
+				storeAndRevert()
+			case "verified-ahead-then-stored-and-reverted":
+				verifyAhead()
+				storeAndRevert()
+			}
+			var err error
+			// one to three tampered copies in a row (the second and third are fresh draws from the table): each is rejected and
+			// leaves no trace, whatever the node cached while rejecting the previous one
+			noffers := rapid.SampledFrom([]int{1, 1, 1, 2, 3}).Draw(rt, "noffers")
+			for o := 0; o < noffers; o++ {
+				if o > 0 {
+					if rapid.Bool().Draw(rt, "sameAgain") {
+						c.Label("same-tampered-copy-offered-again")
+					} else {
+						bad, tm, desc = drawTamper()
+						c.Label("tamper:" + tm.name)
+						c.Fp("then %s", tm.name)
+					}
+				}
+				before := node.Dump(nd.DB)
+				evBefore := node.Obs{}
+				nd.ObserveEvents(evBefore, ids)
+				err = nd.Store(bad)
+				if err == nil {
+					c.Violation("tampered-block-accepted", "%s backend ACCEPTED block %d (v%s) tampered by [%s] (history: %s, offer %d): %s", nd.Backend(), p, ch.Blocks[p].B.ProtocolVersion, tm.name, history, o+1, desc)
+				}
+				after := node.Dump(nd.DB)
+				if why, ok := dumpEqual(before, after); !ok {
+					c.Violation("rejected-block-left-trace", "%s: database changed by the rejected block (%s): %s; rejection was: %v", nd.Backend(), tm.name, why, err)
+				}
+				evAfter := node.Obs{}
+				nd.ObserveEvents(evAfter, ids)
+				if d := node.Diff(evBefore, evAfter, 3); len(d) > 0 {
+					c.Violation("rejected-block-changed-event-answers", "%s: event query answers changed by the rejected block (%s): %v", nd.Backend(), tm.name, d)
+				}
 			}
 			for _, b := range ch.Blocks[p:] {
 				if err := nd.Store(b); err != nil {
@@ -1015,7 +1085,7 @@ func TestPropTamperedBlocksRejected(t *testing.T) {
 			}
 			c.Sample(func() any {
 				return map[string]any{"tamper": tm.name, "what": desc, "position": p, "chain_len": n, "network": u.Net.Name, "l2_chain_id": u.Net.L2ChainID, "first_07_block": meta.First07Block,
-					"unverifiable_range": fmt.Sprint(meta.UnverifiableRange), "backend": nd.Backend(), "version": ch.Blocks[p].B.ProtocolVersion, "rejection": fmt.Sprint(err)}
+					"unverifiable_range": fmt.Sprint(meta.UnverifiableRange), "backend": nd.Backend(), "version": ch.Blocks[p].B.ProtocolVersion, "rejection": fmt.Sprint(err), "seen_before": history, "offers": noffers}
 			})
 		})
 }
